@@ -1529,4 +1529,222 @@ theorem scope_restores {f : Frames → Frames} (h : ScopeOps f) (fs : Frames) : 
   obtain ⟨t, ht⟩ := scopeOps_tail h [] fs
   simp only [Frames.push, Frames.pop, ht, List.tail_cons]
 
+-- ---------------------------------------------------------------------------- part 10: the order of the phi statements of a block
+
+/-- two states that differ at most in the order of the log -/
+structure Eqv (a b : St) : Prop where
+  glob : a.glob = b.glob
+  log : a.log.Perm b.log
+  done : a.done = b.done
+  args : a.args = b.args
+
+theorem Eqv.refl (a : St) : Eqv a a := ⟨rfl, List.Perm.refl _, rfl, rfl⟩
+theorem Eqv.trans {a b c : St} (h1 : Eqv a b) (h2 : Eqv b c) : Eqv a c :=
+  ⟨h1.glob.trans h2.glob, h1.log.trans h2.log, h1.done.trans h2.done, h1.args.trans h2.args⟩
+
+theorem alloc_eqv {a b : St} (h : Eqv a b) (site : Site) (v : Var) : Eqv (alloc a site v) (alloc b site v) := by
+  refine ⟨?_, ?_, h.done, h.args⟩
+  · simp only [alloc, h.glob]
+  · simp only [alloc, h.glob]
+    exact List.Perm.append_right _ h.log
+
+theorem impStep_eqv {a b : St} (h : Eqv a b) (i k : Nat) (m : VMap) (s : PStmt) :
+    Eqv (impStep i k a m s).1 (impStep i k b m s).1 ∧ (impStep i k a m s).2 = (impStep i k b m s).2 := by
+  unfold impStep
+  split
+  · split
+    · exact ⟨h, rfl⟩
+    · exact ⟨alloc_eqv h _ _, by simp only [h.glob]⟩
+  · exact ⟨h, rfl⟩
+
+theorem walkStmt_eqv {a b : St} (h : Eqv a b) (i k : Nat) (m : VMap) (s : PStmt) (r : St × VMap × Stmt)
+    (hw : walkStmt i k a m s = some r) : ∃ r', walkStmt i k b m s = some r' ∧ Eqv r.1 r'.1 ∧ r.2 = r'.2 := by
+  unfold walkStmt at hw ⊢
+  obtain ⟨e1, e2⟩ := impStep_eqv h i k m s
+  split at hw
+  · cases hw
+  · rename_i rs hrs
+    simp only
+    split at hw
+    · cases hw
+      rename_i v hv
+      refine ⟨_, rfl, alloc_eqv e1 _ _, ?_⟩
+      simp only [e1.glob, e2]
+    · cases hw
+      exact ⟨_, rfl, e1, by simp only [e2]⟩
+
+theorem walkStmts_eqv (i : Nat) : ∀ (ss : List PStmt) (k : Nat) (a b : St) (m : VMap) (r : St × VMap × List Stmt),
+    Eqv a b → walkStmts i k a m ss = some r → ∃ r', walkStmts i k b m ss = some r' ∧ Eqv r.1 r'.1 ∧ r.2 = r'.2 := by
+  intro ss
+  induction ss with
+  | nil => intro k a b m r h hw; simp only [walkStmts] at hw ⊢; cases hw; exact ⟨_, rfl, h, rfl⟩
+  | cons s rest ih =>
+    intro k a b m r h hw
+    simp only [walkStmts] at hw ⊢
+    split at hw
+    · cases hw
+    · rename_i r1 h1
+      split at hw
+      · cases hw
+      · rename_i r2 h2
+        cases hw
+        obtain ⟨r1', w1, e1, q1⟩ := walkStmt_eqv h i k m s r1 h1
+        have hm : r1.2.1 = r1'.2.1 := by rw [q1]
+        obtain ⟨r2', w2, e2, q2⟩ := ih (k + 1) r1.1 r1'.1 r1.2.1 r2 e1 h2
+        rw [hm] at w2
+        rw [w1]
+        simp only [w2]
+        exact ⟨_, rfl, e2, by simp only [q1, q2]⟩
+
+theorem walkPhis_eqv (i : Nat) : ∀ (vs : List Var) (a b : St) (m : VMap), Eqv a b →
+    Eqv (walkPhis i a m vs).1 (walkPhis i b m vs).1 ∧ (walkPhis i a m vs).2 = (walkPhis i b m vs).2 := by
+  intro vs
+  induction vs with
+  | nil => intro a b m h; exact ⟨h, rfl⟩
+  | cons v rest ih =>
+    intro a b m h
+    simp only [walkPhis]
+    rw [h.glob]
+    exact ih _ _ _ (alloc_eqv h _ _)
+
+theorem set_comm (m : VMap) (a b : Var) (x y : Nat) (h : a ≠ b) : (m.set a x).set b y = (m.set b y).set a x := by
+  funext w
+  simp only [VMap.set]
+  by_cases h1 : w = b
+  · subst h1
+    have : ¬ w = a := fun e => h e.symm
+    simp [this]
+  · simp [h1]
+
+theorem fresh_set_other (g : VMap) (a b : Var) (x : Nat) (h : b ≠ a) : fresh (g.set a x) b = fresh g b := by
+  unfold fresh; rw [set_other _ _ _ _ h]
+
+/-- the phi statements of a block may be taken in any order: the counters, the scoped map and the versions handed out are
+    the same, the log is a permutation -/
+theorem walkPhis_perm (i : Nat) : ∀ {l l' : List Var}, l.Perm l' → l.Nodup → ∀ (a : St) (m : VMap),
+    Eqv (walkPhis i a m l).1 (walkPhis i a m l').1 ∧ (walkPhis i a m l).2 = (walkPhis i a m l').2 := by
+  intro l l' hp
+  induction hp with
+  | nil => intro _ a m; exact ⟨Eqv.refl _, rfl⟩
+  | cons x _ ih =>
+    intro hnd a m
+    simp only [walkPhis]
+    exact ih (List.nodup_cons.mp hnd).2 _ _
+  | swap x y l =>
+    intro hnd a m
+    have hxy : y ≠ x := by
+      intro e; subst e
+      have := (List.nodup_cons.mp hnd).1
+      exact this List.mem_cons_self
+    simp only [walkPhis]
+    have e : Eqv (alloc (alloc a (.phi i y) y) (.phi i x) x) (alloc (alloc a (.phi i x) x) (.phi i y) y) := by
+      refine ⟨?_, ?_, rfl, rfl⟩
+      · simp only [alloc]
+        rw [fresh_set_other _ _ _ _ (Ne.symm hxy), fresh_set_other _ _ _ _ hxy]
+        exact set_comm _ _ _ _ _ hxy
+      · simp only [alloc]
+        rw [fresh_set_other _ _ _ _ (Ne.symm hxy), fresh_set_other _ _ _ _ hxy]
+        simp only [List.append_assoc, List.cons_append, List.nil_append]
+        exact List.Perm.append_left _ (List.Perm.swap _ _ _)
+    have hm : (m.set y (fresh a.glob y)).set x (fresh (alloc a (.phi i y) y).glob x) =
+        (m.set x (fresh a.glob x)).set y (fresh (alloc a (.phi i x) x).glob y) := by
+      simp only [alloc]
+      rw [fresh_set_other _ _ _ _ (Ne.symm hxy), fresh_set_other _ _ _ _ hxy]
+      exact set_comm _ _ _ _ _ hxy
+    rw [hm]
+    exact walkPhis_eqv i l _ _ _ e
+  | trans h1 h2 ih1 ih2 =>
+    intro hnd a m
+    obtain ⟨e1, m1⟩ := ih1 hnd a m
+    obtain ⟨e2, m2⟩ := ih2 ((List.Perm.nodup_iff h1).mp hnd) a m
+    exact ⟨e1.trans e2, m1.trans m2⟩
+
+theorem walk_eqv (c : PCfg) (P P' : Phis) (idom : Nat → Nat) (hperm : ∀ i, (P i).Perm (P' i)) (hnd : ∀ i, (P i).Nodup) :
+    ∀ (fuel i : Nat) (m : VMap) (a b st : St), Eqv a b → walk c P idom fuel i m a = .ok st →
+    ∃ st', walk c P' idom fuel i m b = .ok st' ∧ Eqv st st' := by
+  intro fuel
+  induction fuel with
+  | zero => intro i m a b st _ hw; simp only [walk] at hw; cases hw
+  | succ fuel ih =>
+    intro i m a b st h hw
+    simp only [walk] at hw ⊢
+    split at hw
+    · cases hw
+    · rename_i r2 h2
+      -- the phi statements, in the other order and from the other state
+      obtain ⟨p1, pm1⟩ := walkPhis_perm i (hperm i) (hnd i) a m
+      obtain ⟨p2, pm2⟩ := walkPhis_eqv i (P' i) a b m h
+      have e1 : Eqv (walkPhis i a m (P i)).1 (walkPhis i b m (P' i)).1 := p1.trans p2
+      have em : (walkPhis i a m (P i)).2 = (walkPhis i b m (P' i)).2 := pm1.trans pm2
+      obtain ⟨r2', w2, e2, q2⟩ := walkStmts_eqv i _ 0 _ _ _ r2 e1 h2
+      rw [em] at w2
+      rw [w2]
+      simp only
+      have hm2 : r2.2.1 = r2'.2.1 := by rw [q2]
+      have hs2 : r2.2.2 = r2'.2.2 := by rw [q2]
+      rw [← hm2]
+      have e3 : Eqv { r2.1 with done := r2.1.done ++ [(i, r2.2.2)], args := pushSuccs (c.block i).succs r2.2.1 r2.1.args }
+          { r2'.1 with done := r2'.1.done ++ [(i, r2'.2.2)], args := pushSuccs (c.block i).succs r2.2.1 r2'.1.args } :=
+        ⟨e2.glob, e2.log, by simp only [e2.done, hs2], by simp only [e2.args]⟩
+      -- the children
+      have kids : ∀ (l : List Nat) (sa sb st : St), Eqv sa sb →
+          foldRes (fun st j => walk c P idom fuel j r2.2.1 st) l sa = .ok st →
+          ∃ st', foldRes (fun st j => walk c P' idom fuel j r2.2.1 st) l sb = .ok st' ∧ Eqv st st' := by
+        intro l
+        induction l with
+        | nil => intro sa sb st he hw'; simp only [foldRes] at hw' ⊢; cases hw'; exact ⟨_, rfl, he⟩
+        | cons j rest ihl =>
+          intro sa sb st he hw'
+          simp only [foldRes] at hw' ⊢
+          split at hw'
+          · rename_i s1 h1
+            obtain ⟨s1', w1, e1'⟩ := ih j r2.2.1 sa sb s1 he h1
+            rw [w1]
+            exact ihl s1 s1' st e1' hw'
+          · cases hw'
+          · cases hw'
+      exact kids _ _ _ st e3 hw
+
+theorem initParams_eqv : ∀ (vs : List Var) (a b : St) (m : VMap), Eqv a b →
+    Eqv (initParams a m vs).1 (initParams b m vs).1 ∧ (initParams a m vs).2 = (initParams b m vs).2 := by
+  intro vs
+  induction vs with
+  | nil => intro a b m h; exact ⟨h, rfl⟩
+  | cons v rest ih =>
+    intro a b m h
+    simp only [initParams]
+    rw [h.glob]
+    exact ih _ _ _ (alloc_eqv h _ _)
+
+theorem verOf_none (log : List Entry) (s : Site) (h : ∀ e, e ∈ log → e.site ≠ s) : verOf log s = 0 := by
+  unfold verOf
+  have : log.find? (fun e => e.site == s) = none := by
+    rw [List.find?_eq_none]
+    intro e he
+    simpa using h e he
+  rw [this]
+
+theorem verOf_perm {log log' : List Entry} (hp : log.Perm log') (hnd : (sites log).Nodup) (s : Site) :
+    verOf log s = verOf log' s := by
+  have hnd' : (sites log').Nodup := (List.Perm.nodup_iff (List.Perm.map _ hp)).mp hnd
+  by_cases h : ∃ e, e ∈ log ∧ e.site = s
+  · obtain ⟨e, he, hs⟩ := h
+    rw [← hs, verOf_mem log e hnd he, verOf_mem log' e hnd' ((List.Perm.mem_iff hp).mp he)]
+  · have h1 : ∀ e, e ∈ log → e.site ≠ s := fun e he hs => h ⟨e, he, hs⟩
+    have h2 : ∀ e, e ∈ log' → e.site ≠ s := fun e he hs => h ⟨e, (List.Perm.mem_iff hp).mpr he, hs⟩
+    rw [verOf_none log s h1, verOf_none log' s h2]
+
+/-- **the SSA form does not depend on the order of the phi statements of a block** (the hash order of `variables_written` in
+    the code): with the phi variables of every block permuted, the conversion succeeds exactly as before, hands out the same
+    version at every site, converts the statements to the same statements and collects the same phi arguments -/
+theorem run_perm (c : PCfg) (P P' : Phis) (idom : Nat → Nat) (hperm : ∀ i, (P i).Perm (P' i)) (hP : ∀ i, (P i).Nodup)
+    (hlt : ∀ j, 0 < j → j < c.blocks.length → idom j < j) (hpar : c.params.Nodup)
+    (st : St) (h : run c P idom = .ok st) :
+    ∃ st', run c P' idom = .ok st' ∧ (∀ s, verOf st.log s = verOf st'.log s) ∧ st.done = st'.done ∧ st.args = st'.args := by
+  obtain ⟨_, hnd⟩ := run_spec c P idom hP hlt hpar st h
+  unfold run at h ⊢
+  simp only at h ⊢
+  obtain ⟨st', w, e⟩ := walk_eqv c P P' idom hperm hP _ 0 _ _ _ st (Eqv.refl _) h
+  exact ⟨st', w, fun s => verOf_perm e.log hnd s, e.done, e.args⟩
+
 end Circomspect.SsaWalk
